@@ -21,6 +21,7 @@
 package distiller
 
 import (
+	"bytes"
 	"errors"
 	"fmt"
 	"io"
@@ -31,11 +32,17 @@ import (
 	"time"
 
 	"github.com/go-shiori/dom"
+	"github.com/gogs/chardet"
 	"github.com/markusmobius/go-domdistiller/data"
 	"github.com/markusmobius/go-domdistiller/internal/domutil"
 	"github.com/markusmobius/go-domdistiller/internal/extractor"
 	"github.com/markusmobius/go-domdistiller/internal/pagination"
 	"golang.org/x/net/html"
+	"golang.org/x/net/html/charset"
+	xunicode "golang.org/x/text/encoding/unicode"
+	"golang.org/x/text/runes"
+	"golang.org/x/text/transform"
+	"golang.org/x/text/unicode/norm"
 )
 
 // PaginationAlgo is the algorithm to find the pagination links.
@@ -155,7 +162,7 @@ func ApplyForFile(path string, opts *Options) (*Result, error) {
 // Apply runs distiller for the specified io.Reader.
 func ApplyForReader(r io.Reader, opts *Options) (*Result, error) {
 	// Parse input
-	doc, err := dom.Parse(r)
+	doc, err := parseHTML(r)
 	if err != nil {
 		return nil, err
 	}
@@ -275,4 +282,41 @@ func sanitizeOutput(container *html.Node) {
 	for i, placeholder := range placeholders {
 		placeholder.Attr = markers[i]
 	}
+}
+
+// parseHTML does what dom.Parse does (detect the character set, convert to UTF-8, normalise
+// to NFC and drop soft hyphens), but picks the character set deterministically. The detector
+// runs its recognisers concurrently and, among equally confident guesses, returns whichever
+// arrived first, so the same bytes could be decoded differently from one call to the next.
+func parseHTML(r io.Reader) (*html.Node, error) {
+	content, err := io.ReadAll(r)
+	if err != nil {
+		return nil, err
+	}
+
+	results, err := chardet.NewHtmlDetector().DetectAll(content)
+	if err != nil {
+		return nil, err
+	}
+
+	best := results[0]
+	for _, res := range results[1:] {
+		if res.Confidence > best.Confidence ||
+			(res.Confidence == best.Confidence && res.Charset < best.Charset) {
+			best = res
+		}
+	}
+
+	pageEncoding, _ := charset.Lookup(best.Charset)
+	if pageEncoding == nil {
+		pageEncoding = xunicode.UTF8
+	}
+
+	softHyphen := runes.Predicate(func(r rune) bool { return r == '\u00AD' })
+	normalizer := transform.Chain(norm.NFD, runes.Remove(softHyphen), norm.NFC)
+
+	var reader io.Reader = bytes.NewReader(content)
+	reader = transform.NewReader(reader, pageEncoding.NewDecoder())
+	reader = transform.NewReader(reader, normalizer)
+	return html.Parse(reader)
 }
